@@ -808,3 +808,113 @@ def fresh_verdicts(items):
         if line.startswith('VERDICTS'):
             return json.loads(line[len('VERDICTS'):])
     raise RuntimeError('fresh interpreter failed: ' + out[-500:])
+
+
+# ----------------------------------------------------------------------------- state leaking between parse calls
+
+def mutate_in_place(obj):
+    """edit a parse result in place at every container level (lists of mods, the dict and its lists, Interval objects,
+    Mod objects, scalar fields, the chain list of a multi annotation)"""
+    _, pp, Mod, Interval, _ = _mods()
+    if isinstance(obj, pp.MultiProFormaAnnotation):
+        for a in obj.annotations:
+            mutate_in_place(a)
+        obj.connections.append(True)
+        if obj.connections:
+            obj.connections[0] = not obj.connections[0]
+        obj.annotations.append(pp.ProFormaAnnotation(_sequence='LEAK'))
+        return
+    a = obj
+    extra = mk_mod('Oxidation', 1)
+    for f in ('_labile_mods', '_unknown_mods', '_nterm_mods', '_cterm_mods', '_static_mods', '_isotope_mods',
+              '_charge_adducts'):
+        l = getattr(a, f)
+        if l is not None:
+            if l:
+                l[0].mult += 1            # a Mod object shared with a cache would leak this
+                l[0].val = 'LEAK'
+            l.append(extra)
+            l.insert(0, mk_mod('First', 2))
+    if a._internal_mods is not None:
+        for k in list(a._internal_mods):
+            l = a._internal_mods[k]
+            if l:
+                l[0].mult += 1
+            l.append(extra)
+        a._internal_mods[10 ** 6] = [extra]
+        first = next(iter(a._internal_mods))
+        del a._internal_mods[first]
+    if a._intervals is not None:
+        for iv in a._intervals:
+            iv.start += 1
+            iv.end += 1
+            iv.ambiguous = not iv.ambiguous
+            if iv.mods is not None:
+                iv.mods.append(extra)
+            else:
+                iv.mods = [extra]
+        a._intervals.append(Interval(0, 1, True, [extra]))
+    a._sequence = a._sequence + 'LEAK'
+    a._charge = 99
+
+
+def string_editors(pt, s):
+    """string-level functions that edit / analyse the annotation they parse from `s` (results ignored, errors ignored)"""
+    calls = [
+        lambda: pt.add_mods(s, {0: 'Oxidation', 1: 'Phospho', 2: 'Oxidation', 'nterm': 'Acetyl', 'cterm': 'Amidated'}),
+        lambda: pt.add_mods(s, {2: 'Oxidation'}),
+        lambda: pt.add_mods(s, {0: ['Methyl', 'Phospho']}, True),
+        lambda: pt.condense_static_mods(s),
+        lambda: pt.condense_to_mass_mods(s),
+        lambda: pt.pop_mods(s),
+        lambda: pt.strip_mods(s),
+        lambda: pt.get_mods(s),
+        lambda: pt.reverse(s),
+        lambda: pt.shift(s, 2),
+        lambda: pt.shuffle(s, 3),
+        lambda: pt.sort(s),
+        lambda: pt.split(s),
+        lambda: pt.span_to_sequence(s, (0, 2, 0)),
+        lambda: pt.mass(s),
+        lambda: pt.comp(s),
+        lambda: list(pt.fragment(s, ['b', 'y'], [1]))[:3],
+        lambda: pt.digest(s, 'trypsin'),
+        lambda: pt.apply_static_mods(s, {'P': ['Oxidation']}),
+        lambda: list(pt.apply_variable_mods(s, {'P': ['Oxidation']}, 2))[:5],
+        lambda: pt.is_modified(s),
+        lambda: pt.count_residues(s),
+    ]
+    n = 0
+    for c in calls:
+        try:
+            c()
+            n += 1
+        except Exception:  # noqa
+            pass
+    return n
+
+
+FRESH_LEAK = """
+import sys, json
+sys.path.insert(0, %r)
+import peptacular as pt
+from harness.props import c01_lib as L
+s = %r
+d0 = L.dump_any(pt.parse(s))
+L.mutate_in_place(pt.parse(s))
+d1 = L.dump_any(pt.parse(s))
+L.string_editors(pt, s)
+d2 = L.dump_any(pt.parse(s))
+print('LEAK' + json.dumps({'first': d0, 'after_mutation': d1, 'after_editors': d2}))
+"""
+
+
+def confirm_leak_fresh(s):
+    """replay parse -> mutate -> parse -> editors -> parse for one string in a fresh interpreter"""
+    from ..core import VERIF
+    rc, out = run_fresh(FRESH_LEAK % (VERIF, s), timeout=120)
+    for line in out.split('\n'):
+        if line.startswith('LEAK'):
+            d = json.loads(line[4:])
+            return d['first'] != d['after_mutation'] or d['first'] != d['after_editors'], d
+    return None, out[-300:]
